@@ -31,6 +31,27 @@ let show_acc (v : value) : string =
     "f64=" ^ opt f64_hex (as_f64 v);
     "is=" ^ b01 (is_i64 v) ^ b01 (is_u64 v) ^ b01 (is_f64 v) ]
 
+let show_list (l : value list) : string =
+  "[" ^ String.concat " | " (List.map string_of_value l) ^ "]"
+let show_ov = function None -> "-" | Some v -> "S " ^ string_of_value v
+
+let show_lst (v : value) (idx : n list) : string =
+  let ncells = match v with Cons (a, d) -> List.length (iter_cells a d) | _ -> 0 in
+  let pair_s = function (xs, t) -> show_list xs ^ " . " ^ string_of_value t in
+  String.concat " ; " [
+    "tv=" ^ (match v with Cons (a, d) -> pair_s (cons_to_vec a d) | _ -> "-");
+    "iv=" ^ (match v with Cons (a, d) -> (match cons_into_vec a d with Some p -> pair_s p | None -> "!") | _ -> "-");
+    "vtv=" ^ (match value_to_vec v with Some l -> show_list l | None -> "-");
+    "cells=" ^ string_of_int ncells;
+    "li=" ^ (match value_list_iter v with
+             | Some c -> String.concat " , " (List.map show_ov (drain (nat_of_int (ncells + 4)) c))
+             | None -> "-");
+    "ii=" ^ (match v with
+             | Cons (a, d) -> String.concat " , " (List.map (fun (x, o) -> string_of_value x ^ " / " ^ show_ov o) (into_iter_items a d))
+             | _ -> "-");
+    "isl=" ^ b01 (is_list v) ^ b01 (is_dotted_list v);
+    "get=" ^ String.concat " , " (List.map (fun i -> show_ov (get_usize v i) ^ " / " ^ string_of_value (index_or_nil (get_usize v i))) idx) ]
+
 let read_prim (t : toks) : prim =
   let s = next t in
   let i = String.index s ':' in
@@ -73,6 +94,25 @@ let run_case (line : string) : string =
       let p = read_prim t in
       let v = read_value t in
       b01 (value_eq_prim v p) ^ b01 (prim_eq_value p v)
+  | "lst" ->
+      let v = read_value t in
+      let k = int_of_string (next t) in
+      let idx = List.init k (fun _ -> n_of_dec (next t)) in
+      show_lst v idx
+  | "build" ->
+      (* build <n> e1..en tail : Value::append *)
+      let n = int_of_string (next t) in
+      let xs = List.init n (fun _ -> read_value t) in
+      let tl = read_value t in
+      string_of_value (value_append xs tl)
+  | "agets" ->
+      let name = bytes_of_hex (next t) in
+      let v = read_value t in
+      show_ov (get_str v name) ^ " / " ^ string_of_value (index_or_nil (get_str v name))
+  | "agetv" ->
+      let key = read_value t in
+      let v = read_value t in
+      show_ov (get_value v key) ^ " / " ^ string_of_value (index_or_nil (get_value v key))
   | "fromf64" ->
       let f = f64_of_bits (n_of_hex (next t)) in
       (match num_from_f64 f with None -> "-" | Some n -> string_of_value (Number n))
